@@ -461,8 +461,10 @@ def check(prop, tier, jobs, only=None, limit=None, cap=None, verbose=False):
         assumptions=getattr(mod, 'ASSUMPTIONS', []),
         wall_s=round(wall, 2), violations=len(violations),
     )
-    os.makedirs(EVID, exist_ok=True)
-    with open(os.path.join(EVID, f'{prop}.json'), 'w') as f:
+    # a filtered run (--only/--limit) is a debugging aid: it must not replace the evidence of the registered command
+    evid_dir = os.path.join(EVID, 'partial') if (only or limit) else EVID
+    os.makedirs(evid_dir, exist_ok=True)
+    with open(os.path.join(evid_dir, f'{prop}.json'), 'w') as f:
         json.dump(evidence, f, indent=1, default=str)
 
     # ---- report
